@@ -48,6 +48,11 @@ type Ctx struct {
 	curRule string
 	seen   map[string]bool
 	reach  map[*ssa.Function]bool
+	reqReach map[*ssa.Function]bool
+	bce    []bceSite
+	bceDone bool
+	skipGenerated bool
+	genFiles map[string]bool
 }
 
 type anchorMissing struct{ what string }
